@@ -79,7 +79,7 @@ def srvResPQ (R : Registry) (P : Prims) (key : PubKey) (s : Secrets) (req : Byte
 
 /-- the object at the head of `data` and the bytes it occupies -/
 def headObject (R : Registry) (P : Prims) (data : Bytes) : Option (Val × Bytes × Bytes) :=
-  match decRegistered R P.gunzip (fuelFor data) data [] with
+  match decRegistered R P.gunzip 0 (fuelFor data) data [] with
   | .ok (v, rest, _) => some (v, data.take (data.length - rest.length), rest)
   | _ => none
 
